@@ -274,6 +274,49 @@ def elementwise_cases(rnd, n, prefix="E", funcs=None, styles=("small", "boundary
     return out
 
 
+def mixed_write_cases(rnd, n, prefix="WL"):
+    """Writes that mix data-holding targets with placeholder values / indices, followed by computations derived from
+    the written array (the write must be visible everywhere afterwards; traced run == eager)."""
+    out = []
+    for i in range(n):
+        d = rnd.choice(["int64", "float64", "int32", "nint64"])
+        sh = ops.rand_shape(rnd, 2, 0.0, (1, 2, 3), min_rank=1)
+        a, p_ = ops.tensor(rnd, d, sh, "small"), ops.tensor(rnd, d, sh, "small")
+        m = {"dtype": "bool", "shape": sh, "data": [rnd.random() < 0.5 for _ in range(ops.prod(sh))]}
+        form = rnd.choice(["x = a.copy(); x[0] = p[0]; out = [x, x + 1]", "x = a.copy(); x[...] = p; out = [x, ndx.sum(x)]",
+                           "x = a.copy(); x[m] = 0; out = [x, x * 2]", "x = a.copy(); y = x[...]; x[-1] = p[-1]; out = [x, y + 0]",
+                           "x = a.copy(); x[0] = p[0]; x[-1] = 7; out = [x + 0, x]", "x = a.copy(); x[m] = 0; out = x * 2",
+                           "x = a.copy(); x[0] = p[0]; out = ndx.reshape(x, [-1]) + 1", "x = a.copy(); x[-1] = p[-1]; out = -x"])
+        lazy = ["m"] if "[m]" in form else ["p"]
+        out.append({"id": f"{prefix}-{i}", "inputs": {"a": a, "p": p_, "m": m}, "impl": form, "oracle": None, "tol": [0, 0],
+                    "meta": {"func": "setitem-mixed", "dtype": d, "dclass": dclass(d)},
+                    "lazy_subsets": [{"names": lazy}, {"names": lazy + ["a"]}]})
+    return out
+
+
+def pow_special_cases(rnd, n, prefix="PW"):
+    """pow on the special values the standard lists (signed zeros, infinities, NaN, +-1) with constant exponents given as
+    Python scalars, 0-d / one-element arrays and full-size arrays.  The oracle always uses a full-size exponent array
+    (NumPy takes its own fast paths for scalar exponents)."""
+    out = []
+    bases = [0.0, -0.0, float("inf"), float("-inf"), float("nan"), 1.0, -1.0, 0.5, 2.0, -2.0, 4.0]
+    exps = ["0.5", "-0.5", "2.0", "0.0", "-0.0", "1.0", "3.0", "-1.0", "float('inf')", "float('-inf')", "0.25"]
+    for i in range(n):
+        d = rnd.choice(["float32", "float64"])
+        k = rnd.randint(3, 8)
+        data = [rnd.choice(bases) for _ in range(k)]
+        x = {"dtype": d, "shape": [k], "data": [ops.fhex(v) for v in data]}
+        e = rnd.choice(exps)
+        form = rnd.choice(["x ** {e}", "ndx.pow(x, {e})", "ndx.pow(x, ndx.asarray(np.array({e}, dtype=np.{d})))", "ndx.pow(x, ndx.asarray(np.array([{e}], dtype=np.{d})))",
+                           "ndx.pow(x, ndx.asarray(np.full(x.shape if hasattr(x.shape, '__len__') and None not in x.shape else [%d], {e}, dtype=np.{d})))" % k])
+        impl = "out = " + form.format(e=e, d=d)
+        orc = f"out = np.power(x, np.full(x.shape, {e}, dtype=x.dtype))"
+        meta = {"func": "pow", "dtype": d, "dclass": dclass(d), "style": "special-values", "exponent": e}
+        c = mkcase(f"{prefix}-{i}", {"x": x}, impl, orc, meta, rnd, ew_tol("pow", d), symbolic=False, check_dtype=False)   # result dtype: C03
+        out.append(c)
+    return out
+
+
 def scalar_operand_cases(rnd, n, prefix="SC"):
     """Binary element-wise calls with a Python scalar operand (both orders, functions and operators), including signed
     zeros and Python-equal scalars of different types; a third of the cases use two different scalars one after the
@@ -811,6 +854,17 @@ def creation_cases(rnd, n, prefix="C"):
                 orc = f"out = np.{npf}(x{arg})"
             if b == "utf8" and f == "full_like":     # NumPy would truncate to x's string width
                 orc = "out = mk(np.full(np.shape(x), 'ab'), False)" if ops.nullable(d) else "out = np.full(np.shape(x), 'ab')"
+            if f == "full_like" and b not in ("utf8", "bool") and not ops.nullable(d) and rnd.random() < 0.5:
+                # the fill is itself an array (0-d, another dtype) and an explicit dtype may be given: result dtype and
+                # values are those of NumPy's full_like (cast to dtype or x.dtype)
+                fd = rnd.choice(["float64", "int64", "int32", "float32"])
+                fv = rnd.choice(["2.75", "3", "-1.5", "7"]) if fd.startswith("float") else rnd.choice(["3", "7", "-2" if not b.startswith("u") else "5"])
+                dk = rnd.choice(["", "", f", dtype=ndx.{rnd.choice(['uint8', 'int64', 'float32'])}"])
+                ndk = dk.replace("ndx.", "np.")
+                meta["fill"] = f"array:{fd}"
+                out.append(mkcase(cid, {"x": x}, f"out = ndx.full_like(x, ndx.asarray(np.array({fv}, dtype=np.{fd})){dk})",
+                                  f"out = np.full_like(x, np.array({fv}, dtype=np.{fd}){ndk})", meta, rnd))
+                continue
             out.append(mkcase(cid, {"x": x}, f"out = ndx.{f}(x{arg})", orc, meta, rnd))
         elif f == "eye":
             nr, nc, k = rnd.choice([0, 1, 2, 3, 5]), rnd.choice([None, 0, 1, 2, 4]), rnd.randint(-3, 3)
@@ -889,6 +943,9 @@ def cast_cases(rnd, n, prefix="K"):
         elif ba in ops.INTS and bb in ops.FLOATS:
             lo2, hi2 = ops.IINFO[ba]
             x["data"] = [rnd.choice([lo2, hi2, 0, 1, hi2 // 3, min(hi2, 16777217), min(hi2, 2**53 + 1)]) for _ in range(ops.prod(sh))]
+        elif ba in ops.INTS and bb == "utf8":
+            lo2, hi2 = ops.IINFO[ba]
+            x["data"] = [rnd.choice([lo2, hi2, 0, 1, hi2 - 1, hi2 // 2 + 1, 42]) for _ in range(ops.prod(sh))]
         elif ba == "utf8" and bb in ops.INTS:
             lo, hi = ops.IINFO[bb]
             x["data"] = ["s:" + str(rnd.choice([0, 1, hi, lo, 42])) for _ in range(ops.prod(sh))]
